@@ -20,7 +20,46 @@ def fixtures():
 
 PAIR_CLASSES = ["related", "related", "related", "related", "unrelated", "fixture_mut", "sim_straddle",
                 "short_sources", "base64", "pointer_only", "mime_keys", "output_kinds", "attachments",
-                "meta_types", "separators", "move_dup", "identical", "minor_change", "line_endings", "diff_lookalike", "long_repetitive"]
+                "meta_types", "separators", "move_dup", "identical", "minor_change", "line_endings", "diff_lookalike", "long_repetitive",
+                "large_outputs"]
+
+
+def big_text(r, kind="html", size=None):
+    """text whose length straddles nbdime's comparison cut-offs (10000 chars for text mime data, 1000 for streams)"""
+    size = size or r.choice([900, 1100, 3000, 9500, 10500, 13000, 36000])
+    if kind == "html":
+        rows, i = ["<table>"], 0
+        while sum(map(len, rows)) < size:
+            rows.append("<tr><td>%d</td><td>%0.3f</td><td>row %d</td></tr>" % (i, i * 0.37, i % 11))
+            i += 1
+        return "\n".join(rows + ["</table>"])
+    out, i = [], 0
+    while sum(map(len, out)) < size:
+        out.append("step %d loss=%0.4f acc=%0.3f\n" % (i, 1.0 / (i + 1), 1 - 1.0 / (i + 2)))
+        i += 1
+    return "".join(out)
+
+
+def inflate_outputs(nb, r, gen=None):
+    """give some outputs of some code cells a large payload; returns number of inflated outputs"""
+    n = 0
+    for c in nb["cells"]:
+        if c["cell_type"] != "code":
+            continue
+        if not c["outputs"] and r.random() < 0.5:
+            ec = c.get("execution_count") or 1
+            c["execution_count"] = ec
+            c["outputs"].append({"output_type": "execute_result", "execution_count": ec, "metadata": {}, "data": {"text/plain": "<table object>"}})
+        for o in c["outputs"]:
+            if r.random() < 0.3:
+                continue
+            if o["output_type"] == "stream":
+                o["text"] = big_text(r, "log", r.choice([900, 1100, 3000]))
+                n += 1
+            elif "data" in o:
+                o["data"][r.choice(["text/html", "text/plain", "text/html", "application/javascript"])] = big_text(r, "html")
+                n += 1
+    return n
 
 
 def _code_cell(gen, minor, source, outputs=None):
@@ -196,6 +235,45 @@ def nb_pair(gen, cls=None, minor=None):
         if which in ("output", "both"):
             b["cells"][0]["outputs"][0]["text"] = "\n".join(edit_long(out)) + "\n"
         rec.append(which)
+    elif cls == "large_outputs":
+        # outputs whose text payload is beyond / around the alignment predicates' comparison cut-offs; the edit
+        # re-runs (execution counts), touches output metadata, changes one character near the start or the very
+        # end of the payload, or re-orders / duplicates such outputs
+        ec = r.randrange(1, 9)
+        html = big_text(r, "html")
+        outs = [{"output_type": "execute_result", "execution_count": ec, "metadata": {}, "data": {"text/html": html, "text/plain": "<table %d>" % len(html)}},
+                {"output_type": "stream", "name": "stdout", "text": big_text(r, "log", r.choice([900, 1100, 3000]))}]
+        if r.random() < 0.5:
+            outs.append({"output_type": "display_data", "metadata": {}, "data": {"text/html": r.choice([html, big_text(r, "html")])}})
+        r.shuffle(outs)
+        cell = _code_cell(gen, m, "df.describe()\n", outs)
+        cell["execution_count"] = ec
+        a["cells"].insert(r.randrange(len(a["cells"]) + 1), cell)
+        b = copy.deepcopy(a)
+        bc = [c for c in b["cells"] if c.get("source") == "df.describe()\n"][0]
+        for _ in range(r.choice([1, 1, 2, 3])):
+            what = r.choice(["rerun_counts", "out_meta", "char_start", "char_end", "swap", "dup", "cell_source"])
+            rec.append(what)
+            o = r.choice(bc["outputs"])
+            if what == "rerun_counts":
+                bc["execution_count"] += 1
+                for oo in bc["outputs"]:
+                    if oo["output_type"] == "execute_result":
+                        oo["execution_count"] = bc["execution_count"]
+            elif what == "out_meta" and "metadata" in o:
+                o["metadata"][r.choice(["isolated", "needs_background", "w"])] = r.choice([True, "light", 3])
+            elif what in ("char_start", "char_end"):
+                key = "text" if o["output_type"] == "stream" else r.choice(sorted(o["data"]))
+                holder = o if key == "text" else o["data"]
+                t = holder[key]
+                j = r.randrange(min(40, len(t))) if what == "char_start" else len(t) - 1 - r.randrange(min(40, len(t)))
+                holder[key] = t[:j] + ("#" if t[j] != "#" else "%") + t[j + 1:]
+            elif what == "swap" and len(bc["outputs"]) > 1:
+                bc["outputs"].insert(0, bc["outputs"].pop())
+            elif what == "dup":
+                bc["outputs"].append(copy.deepcopy(o))
+            elif what == "cell_source":
+                bc["source"] = bc["source"] + "df.head()\n"
     elif cls == "diff_lookalike":
         look = ["\\ No newline at end of file", "--- before", "+++ after", "@@ -1,3 +1,3 @@", "-removed", "+added", " context",
                 "diff --git a/before b/after", "index 000..111 100644", "<<<<<<< not a real marker", "text"]
@@ -564,10 +642,22 @@ def merge_triple(gen, cls=None, minor=None, plain_eol=False):
         ll, rl = list(lines), list(lines)
         ll[j] = lines[j] + " # local edit %d" % r.randrange(100)
         rl[j] = "remote rewrite %d of " % r.randrange(100) + lines[j]
+        mode = r.choice(["distinct", "distinct", "prefix", "suffix", "infix"])
+        if mode == "prefix":      # one side's new line continues the other side's new line
+            ll[j] = lines[j] + r.choice(["5", " as pd", ".0", " + 1"])
+            rl[j] = ll[j] + r.choice(["5", " # more", "0", ", x"])
+        elif mode == "suffix":
+            ll[j] = r.choice(["# ", "x", "  "]) + lines[j]
+            rl[j] = r.choice(["# ", "y", "  "]) + ll[j]
+        elif mode == "infix":
+            ll[j] = lines[j] + " tail"
+            rl[j] = "head " + lines[j] + " tail"
+        if mode != "distinct" and r.random() < 0.5:
+            ll[j], rl[j] = rl[j], ll[j]
         loc["cells"][pos]["source"] = "\n".join(ll) + final
         rem["cells"][pos]["source"] = "\n".join(rl) + final
         info = {"pos": pos, "line": j, "nlines": nl, "local_line": ll[j], "remote_line": rl[j],
-                "id": c.get("id"), "final_newline": bool(final)}
+                "id": c.get("id"), "final_newline": bool(final), "mode": mode}
     elif cls == "minor_diff":
         from .gen_edit import change_minor
         change_minor(loc, gen)
